@@ -17,6 +17,8 @@ def _env(home):
     e = dict(os.environ)
     e.update({"PYTHONWARNINGS": "ignore", "PYTHONHASHSEED": "0", "HOME": home})   # HOME: no ~/.islarc of the user
     e.pop("PYTHONPATH", None)
+    if os.environ.get("VERIF_REPO", "/repo") != "/repo":      # tools/try_seed.py: a patched scratch checkout
+        e["PYTHONPATH"] = os.path.join(os.environ["VERIF_REPO"], "src")
     return e
 
 
